@@ -694,6 +694,38 @@ func work(w *mon.W) {
 				return map[string]interface{}{"expression": expr, "values": fmt.Sprintf("%+v", *x)}
 			}
 			c.Violate(mon.PanicKey(stack), "Validate panics on expression %q with values %+v: %v\n%s", expr, *x, pv, trunc(stack, 1500))
+			return
+		}
+		// an expression that is nothing but a reference: what it refers to may be absent (nil
+		// pointer, missing key, index beyond the end). nil is false like 0 and '' ("E" accepts
+		// exactly when "(E)&&true" does)
+		if r.Chance(4) {
+			type bare struct {
+				e    string
+				want bool
+			}
+			bs := []bare{
+				{"(P)$", x.P != nil && *x.P != 0},
+				{"(NS)$", x.NS != nil && *x.NS != ""},
+				{"(M)$['a']", x.M["a"] != 0},
+				{"(L2)$[0]", len(x.L2) > 0},
+			}
+			b := bs[r.Intn(len(bs))]
+			for _, e := range []string{b.e, "(" + b.e + ")&&true"} {
+				got, pv, stack := validate(e, x)
+				w.Count("bare_reference_validations", 1)
+				c.Detail = func() interface{} {
+					return map[string]interface{}{"expression": e, "values": fmt.Sprintf("%+v", *x)}
+				}
+				if pv != nil {
+					c.Violate(mon.PanicKey(stack), "Validate panics on expression %q with values %+v: %v\n%s", e, *x, pv, trunc(stack, 1500))
+					return
+				}
+				if got != b.want {
+					c.Violate("accept-reject", "expression %q with P!=nil=%v NS!=nil=%v M=%v L2=%v: Validate %s, the expression evaluates to %v (a nil result is false, as in %q)", e, x.P != nil, x.NS != nil, x.M, x.L2, map[bool]string{true: "accepts", false: "rejects"}[got], b.want, "("+b.e+")&&true")
+					return
+				}
+			}
 		}
 	})
 }
